@@ -281,9 +281,11 @@ def r3_layout_names(ctx, rep):
            f"PageNode.url is built from {[ast.unparse(e) for e in r]}: pages are written below '{d_page}' relative to path", py.nloc(url))
     pth = py.func("PageNode.path")
     r = astq.returns(pth)
-    ok = any(astq.mentions(e, "self.location", pth) for e in r) and any(
-        isinstance(c, ast.Call) and call_name(c).endswith("with_suffix") and c.args and isinstance(c.args[0], ast.Constant)
-        and c.args[0].value == ".html" and "filename" in ast.unparse(c.func) for e in r for x in astq.expand_locals(e, pth) for c in ast.walk(x))
+    # location / <file name with .html>: however the suffix is attached (with_suffix, f-string, concatenation)
+    def html_name(x: ast.AST) -> bool:
+        return any(isinstance(k, ast.Constant) and isinstance(k.value, str) and k.value.endswith(".html") for k in ast.walk(x)) and \
+            any(isinstance(a, ast.Attribute) and a.attr == "filename" for a in ast.walk(x))
+    ok = any(astq.mentions(e, "self.location", pth) for e in r) and any(html_name(x) for e in r for x in astq.expand_locals(e, pth))
     rep.ob("PageNode.path = location/stem.html", ok, "", py.nloc(pth))
     loc, outf = py.func("PagetreePage.loc"), py.func("PagetreePage.outfile")
     rl, ro = astq.returns(loc), astq.returns(outf)
